@@ -248,15 +248,19 @@ def keyStr : Key → List Char
   | .s k => k
   | .i z => intStr z
 
-/-- `_KeyComparisonWrapper.__eq__` / `__lt__` (558-574): two ints numerically, otherwise the
-`str()` forms. -/
+/-- `_KeyComparisonWrapper.__eq__` / `__lt__` (558-578, with fix C10-F38): two ints numerically,
+two strs lexicographically, an int before a str (before the fix a mixed pair was compared by the
+`str()` forms, which made the order neither transitive nor total). -/
 def keyEqW : Key → Key → Bool
   | .i a, .i b => a == b
-  | a, b => keyStr a == keyStr b
+  | .s a, .s b => a == b
+  | _, _ => false
 
 def keyLtW : Key → Key → Bool
   | .i a, .i b => a < b
-  | a, b => strLt (keyStr a) (keyStr b)
+  | .s a, .s b => strLt a b
+  | .i _, .s _ => true
+  | .s _, .i _ => false
 
 /-- Python tuple `<` over the wrappers: first position where the wrappers are not `==`. -/
 def pathLt : Path → Path → Bool
